@@ -1,2 +1,242 @@
-(* C08 — placeholder until the proofs land *)
-From TFL Require Import Model.LatticeDykstra.
+(* C08 — Iterative (Dykstra) projection: feasible kernels are fixed; a fixpoint
+   of a sweep is the Euclidean-nearest feasible kernel.  Property theorems only;
+   proofs live in Proofs/DykstraTheory.v (abstract theory) and
+   Proofs/LatticeDykstra.v (the model Model/LatticeDykstra.v of
+   lattice_lib.project_by_dykstra and the eight _project_partial_* updates).
+
+   Tensors are functions on index vectors over the shape sizes ++ [units];
+   teq sh f g := f, g agree (==) on every valid index of sh.
+
+   What is proved
+   * C08_increment_sum: the roll-back invariant, for ANY list of keyed maps.
+   * C08_feasible_fixed (+ _changes_zero): all EIGHT families (monotonicity,
+     unimodality, Edgeworth, trapezoid, monotonic dominance, range dominance,
+     joint monotonicity, joint unimodality), any combination, any number of
+     iterations, any number of units.
+   * C08_group_nearest_<family>: the group update of the code IS the
+     nearest-point map (variational characterisation) onto its group's
+     constraint set, for monotonicity/unimodality, Edgeworth (1/4), trapezoid
+     (1/2), monotonic dominance and joint monotonicity (2/3, 1/3): a wrong
+     coefficient, sign or parity would make these unprovable.
+   * C08_fixpoint_nearest (abstract), C08_sweep_fixpoint_nearest (dyk_sweep of
+     the model, any keyed nearest-point maps with distinct keys),
+     C08_dykstra_fixpoint_nearest (group_ops of a configuration of the six exact
+     families): a state whose stored changes are reproduced by one more sweep is
+     feasible and is the Euclidean-nearest feasible kernel to the start.
+   * C08_halfspace_nearest, C08_nearest_unique, C08_nearest_distance: the
+     half-space projection formula; uniqueness / distance form of "nearest".
+   * C08_pwl_feasible_fixed: re-export of the C04 theorem for the PWL calibrator.
+
+   NOT proved (by design, DESIGN.md section 7/C08):
+   * convergence of the iterates (violation -> 0 as num_iterations grows;
+     Boyle-Dykstra 1986) and any rate, hence also the closeness of the strict
+     layer constraint to the nearest point at finite n: tested numerically by
+     harness/props/c08.py against an exact solver, not proved;
+   * nearest-point theorems for the group updates of range dominance and joint
+     unimodality (the property claims the nearest point only for the other six
+     families; for these two only feasible => fixed and properness are proved);
+   * C08_pwl_mono_bounds_nearest (PWL monotonicity-with-bounds limit) is absent;
+   * C08_dykstra_fixpoint_nearest assumes that no constraint is listed twice
+     (NoDup of the four constraint lists): duplicated constraints share one
+     last_change slot in the code and are outside the theorem.
+
+   Finding recorded as a theorem (not part of the property statement, which
+   claims the nearest point only for the six families above):
+   C08_range_dominance_corner_not_nearest - at the corner vertices (0, max) and
+   (max, 0) the range-dominance update is feasible but is NOT the Euclidean
+   projection (reproduced on the real code: moves e_(0,1) on a 2x2 lattice by
+   squared distance 2, nearest feasible point is at 2/3).
+
+   Hypotheses are satisfiable: Examples feasible_fixed_hyps_A (2x3 lattice, 2
+   units, six families incl. range dominance, kernel i + u), feasible_fixed_hyps_B (3x3, 2 units,
+   unimodality + joint unimodality, valley kernel), fixpoint_nearest_hyps_C (a
+   kernel that moves and reaches a fixpoint after one sweep; its constraint
+   lists are empty, hence duplicate-free) in Proofs/LatticeDykstra.v, and
+   asweep_fixpoint_hyps (abstract theorem) in Proofs/DykstraTheory.v. *)
+From TFL Require Import Model.LatticeDykstra Proofs.DykstraTheory Proofs.LatticeDykstra.
+From TFL Require Model.PWLProject Proofs.PWLProject.
+Open Scope Q_scope.
+
+(* 1. Roll-back invariant: after n sweeps over ANY keyed maps, the current point
+   is the start plus the sum of the stored changes, one per distinct stored key
+   (duplicated keys share one slot of the dictionary). *)
+Theorem C08_increment_sum : forall (sh : list nat) (ops : list (key * (tens -> tens))) (n : nat) (W : tens),
+  let W' := fst (dyk_loop sh ops n (W, [])) in
+  let lc := snd (dyk_loop sh ops n (W, [])) in
+  NoDup (map fst lc) /\
+  forall x, valid sh x -> W' x == W x + qsum (map (fun k => lc_get lc k x) (map fst lc)).
+Proof. exact increment_sum. Qed.
+Print Assumptions C08_increment_sum.
+
+(* 2. Feasible kernels are fixed: all eight families, any combination, any
+   iteration count, any units.
+   dyk_cfg_ok c: trust / dominance / joint-monotonicity pairs name two different
+     lattice dimensions (< rank), trust directions are non-zero.
+   dyk_feasible c W: mono_along for every dimension with monotonicity 1,
+     unimodal_along (the code's i < size/2 split) for every dimension with
+     unimodality <> 0, edgeworth_holds / trapezoid_holds (LatticeSpec.v),
+     mdom_holds, rdom_holds, jmono_holds, junimod_holds for every listed
+     constraint (the inequalities of lattice_lib.assert_constraints /
+     harness/latpred.py). *)
+Theorem C08_feasible_fixed : forall (c : dyk_cfg) (W : tens),
+  dyk_cfg_ok c -> dyk_feasible c W -> teq (k_shape c) (project_by_dykstra c W) W.
+Proof. exact feasible_fixed. Qed.
+Print Assumptions C08_feasible_fixed.
+
+(* ... and every stored last_change stays zero, after any number of sweeps *)
+Theorem C08_feasible_changes_zero : forall (c : dyk_cfg) (W : tens) (n : nat),
+  dyk_cfg_ok c -> dyk_feasible c W ->
+  forall e, In e (snd (dyk_loop (k_shape c) (group_ops c) n (W, []))) -> teq (k_shape c) (snd e) tzero.
+Proof. exact feasible_changes_zero. Qed.
+Print Assumptions C08_feasible_changes_zero.
+
+(* generic form: any list of maps that fix W and respect teq *)
+Theorem C08_fixed_generic : forall (sh : list nat) (ops : list (key * (tens -> tens))) (n : nat) (W : tens),
+  (forall kop, In kop ops -> op_proper sh (snd kop) /\ op_fixes sh (snd kop) W) ->
+  teq sh (fst (dyk_loop sh ops n (W, []))) W /\
+  forall e, In e (snd (dyk_loop sh ops n (W, []))) -> teq sh (snd e) tzero.
+Proof. exact dyk_loop_fixed. Qed.
+Print Assumptions C08_fixed_generic.
+
+(* 3. Abstract fixpoint => nearest.  Vectors are functions on a finite index list
+   I; ip I f g = sum_{i in I} f i * g i; is_proj I C P := forall y, C (P y) /\
+   forall z, C z -> ip I (y - P y) (z - P y) <= 0.  asweep rolls back, applies
+   and stores for every slot (set, map, stored increment) in turn.  If the
+   increments add up to x - x0 and one sweep reproduces every increment, then x
+   is unchanged, lies in every set, and satisfies the variational inequality of
+   the intersection, i.e. it is the nearest point of the intersection to x0. *)
+Theorem C08_fixpoint_nearest : forall (A : Type) (I : list A) (sl : list (slot (A:=A))) (x0 x : A -> Q),
+  (forall s, In s sl -> is_proj I (s_C s) (s_P s)) ->
+  (forall s, In s sl -> forall f g, veq I f g -> s_C s f -> s_C s g) ->
+  (forall s, In s sl -> forall f g, veq I f g -> veq I (s_P s f) (s_P s g)) ->
+  veq I x (vadd x0 (vsum (map s_e sl))) ->
+  Forall2 (fun s s' => veq I (s_e s') (s_e s)) sl (snd (asweep sl x)) ->
+  veq I (fst (asweep sl x)) x /\
+  (forall s, In s sl -> s_C s x) /\
+  (forall z, (forall s, In s sl -> s_C s z) ->
+     ip I (vsub x0 x) (vsub z x) <= 0 /\ ip I (vsub x0 x) (vsub x0 x) <= ip I (vsub x0 z) (vsub x0 z)).
+Proof. exact (@asweep_fixpoint_nearest). Qed.
+Print Assumptions C08_fixpoint_nearest.
+
+(* the variational inequality gives the distance form of "nearest" ... *)
+Theorem C08_nearest_distance : forall (A : Type) (I : list A) (x0 x z : A -> Q),
+  ip I (vsub x0 x) (vsub z x) <= 0 ->
+  ip I (vsub x0 x) (vsub x0 x) + ip I (vsub x z) (vsub x z) <= ip I (vsub x0 z) (vsub x0 z).
+Proof. exact (@vi_nearest_dist). Qed.
+Print Assumptions C08_nearest_distance.
+
+(* ... and determines the point uniquely *)
+Theorem C08_nearest_unique : forall (A : Type) (I : list A) (C : (A -> Q) -> Prop) (x0 x x' : A -> Q),
+  C x -> C x' ->
+  (forall z, C z -> ip I (vsub x0 x) (vsub z x) <= 0) ->
+  (forall z, C z -> ip I (vsub x0 x') (vsub z x') <= 0) -> veq I x x'.
+Proof. exact (@vi_unique). Qed.
+Print Assumptions C08_nearest_unique.
+
+(* projection onto one half-space <c, w> >= 0:  w - c * min(<c,w>, 0) / <c,c> *)
+Theorem C08_halfspace_nearest : forall (A : Type) (I : list A) (c : A -> Q),
+  0 < ip I c c -> is_proj I (fun w => 0 <= ip I c w) (hs_proj I c).
+Proof. exact (@halfspace_is_proj). Qed.
+Print Assumptions C08_halfspace_nearest.
+
+(* 4. The group updates are nearest-point maps over I = all valid indices.
+   mono_group_ok sh mono uni d g W: every pair (i, i+1), i = g, g+2, ..., of axis d,
+   at every position of the other axes, satisfies  (mono = 1 -> lo <= hi) and
+   (uni <> 0 -> lo <= hi on the increasing part / hi <= lo on the decreasing part). *)
+Theorem C08_group_nearest_monotonicity : forall sh mono uni d g, (d < length sh)%nat ->
+  is_proj (all_idx sh) (mono_group_ok sh mono uni d g) (mono_group sh mono uni d g).
+Proof. exact mono_group_is_proj. Qed.
+Print Assumptions C08_group_nearest_monotonicity.
+
+(* edge_group_ok: the slope inequality on every square with lower corner (i, j),
+   i = g0, g0+2, ..., j = g1, g1+2, ... (reversed conditional axis for direction -1) *)
+Theorem C08_group_nearest_edgeworth : forall sh m c dir g0 g1, m <> c -> (m < length sh)%nat -> (c < length sh)%nat ->
+  is_proj (all_idx sh) (edge_group_ok sh (m, c, dir) g0 g1) (edge_group sh (m, c, dir) g0 g1).
+Proof. exact edge_group_is_proj. Qed.
+Print Assumptions C08_group_nearest_edgeworth.
+
+Theorem C08_group_nearest_trapezoid : forall sh m c dir g, m <> c -> (c < length sh)%nat ->
+  is_proj (all_idx sh) (trap_group_ok sh (m, c, dir) g) (trap_group sh (m, c, dir) g).
+Proof. exact trap_group_is_proj. Qed.
+Print Assumptions C08_group_nearest_trapezoid.
+
+Theorem C08_group_nearest_monotonic_dominance : forall sh p q g0 g1 g2, p <> q -> (p < length sh)%nat -> (q < length sh)%nat ->
+  is_proj (all_idx sh) (mdom_group_ok sh p q g0 g1 g2) (mdom_group sh p q g0 g1 g2).
+Proof. exact mdom_group_is_proj. Qed.
+Print Assumptions C08_group_nearest_monotonic_dominance.
+
+Theorem C08_group_nearest_joint_monotonicity : forall sh p q g0 g1 g2, p <> q -> (p < length sh)%nat -> (q < length sh)%nat ->
+  is_proj (all_idx sh) (jmono_group_ok sh p q g0 g1 g2) (jmono_group sh p q g0 g1 g2).
+Proof. exact jmono_group_is_proj. Qed.
+Print Assumptions C08_group_nearest_joint_monotonicity.
+
+(* for the six exact families, feasibility is exactly membership in the set of
+   every configured group (key_set c k = the set of the group with key k) *)
+Theorem C08_groups_cover_feasibility : forall c W, dyk_cfg_ok c -> exact_families c -> trap_sizes_ok c ->
+  (dyk_feasible c W <-> forall kop, In kop (group_ops c) -> key_set c (fst kop) W).
+Proof. exact feasible_iff_key_sets. Qed.
+Print Assumptions C08_groups_cover_feasibility.
+
+(* 5. Fixpoint => nearest for dyk_sweep / dyk_loop of the model: any keyed maps
+   with distinct keys, each a nearest-point map onto the set named by its key. *)
+Theorem C08_sweep_fixpoint_nearest :
+  forall sh (ops : list (key * (tens -> tens))) (Cof : key -> tens -> Prop) (W0 : tens) (n : nat),
+  NoDup (map fst ops) ->
+  (forall kop, In kop ops ->
+     is_proj (all_idx sh) (Cof (fst kop)) (snd kop) /\ op_proper sh (snd kop) /\
+     (forall f g, teq sh f g -> Cof (fst kop) f -> Cof (fst kop) g)) ->
+  let st := dyk_loop sh ops n (W0, []) in
+  (forall kop, In kop ops -> teq sh (lc_get (snd (dyk_sweep sh ops st)) (fst kop)) (lc_get (snd st) (fst kop))) ->
+  teq sh (fst (dyk_sweep sh ops st)) (fst st) /\
+  (forall kop, In kop ops -> Cof (fst kop) (fst st)) /\
+  (forall z, (forall kop, In kop ops -> Cof (fst kop) z) ->
+     ip (all_idx sh) (vsub W0 (fst st)) (vsub z (fst st)) <= 0 /\
+     ip (all_idx sh) (vsub W0 (fst st)) (vsub W0 (fst st)) <= ip (all_idx sh) (vsub W0 z) (vsub W0 z)).
+Proof. exact dyk_loop_fixpoint_nearest. Qed.
+Print Assumptions C08_sweep_fixpoint_nearest.
+
+(* ... instantiated with the configured group maps of the six exact families
+   (exact_families c: no range dominance, no joint unimodality; trap_sizes_ok c:
+   main axis of every trapezoid trust has size >= 2): a state reached after n
+   sweeps whose stored changes are reproduced by one more sweep is unchanged by
+   it, FEASIBLE, and the Euclidean-nearest feasible kernel to the start W0. *)
+Theorem C08_dykstra_fixpoint_nearest : forall (c : dyk_cfg) (W0 : tens) (n : nat),
+  dyk_cfg_ok c -> exact_families c -> trap_sizes_ok c ->
+  NoDup (k_edge c) -> NoDup (k_trap c) -> NoDup (k_mdom c) -> NoDup (k_jmono c) ->
+  let sh := k_shape c in
+  let st := dyk_loop sh (group_ops c) n (W0, []) in
+  (forall kop, In kop (group_ops c) ->
+     teq sh (lc_get (snd (dyk_sweep sh (group_ops c) st)) (fst kop)) (lc_get (snd st) (fst kop))) ->
+  teq sh (fst (dyk_sweep sh (group_ops c) st)) (fst st) /\
+  dyk_feasible c (fst st) /\
+  (forall z, dyk_feasible c z ->
+     ip (all_idx sh) (vsub W0 (fst st)) (vsub z (fst st)) <= 0 /\
+     ip (all_idx sh) (vsub W0 (fst st)) (vsub W0 (fst st)) <= ip (all_idx sh) (vsub W0 z) (vsub W0 z)).
+Proof. exact dykstra_fixpoint_nearest'. Qed.
+Print Assumptions C08_dykstra_fixpoint_nearest.
+
+(* no constraint listed twice => the dictionary keys of the configured group
+   maps are pairwise distinct (hypothesis of C08_sweep_fixpoint_nearest) *)
+Theorem C08_group_keys_distinct : forall c, exact_families c ->
+  NoDup (k_edge c) -> NoDup (k_trap c) -> NoDup (k_mdom c) -> NoDup (k_jmono c) ->
+  NoDup (map fst (group_ops c)).
+Proof. exact group_ops_keys_nodup. Qed.
+Print Assumptions C08_group_keys_distinct.
+
+(* Range dominance, corner vertices: the group update is not a nearest-point map
+   onto ANY set containing the feasible witness z (in particular not onto its
+   own constraint set rdom_group_ok). *)
+Theorem C08_range_dominance_corner_not_nearest :
+  exists sh p q i j (z : tens),
+    (i < nth p sh 0%nat)%nat /\ (j < nth q sh 0%nat)%nat /\ rdom_group_ok sh p q i j z /\
+    forall C : tens -> Prop, C z -> ~ is_proj (all_idx sh) C (rdom_group sh p q i j).
+Proof. exact rdom_corner_not_nearest. Qed.
+Print Assumptions C08_range_dominance_corner_not_nearest.
+
+(* 6. PWL calibrator: feasible kernel columns are left unchanged (re-export of the
+   C04 theorem; vocabulary pwl_valid / feasible in Proofs/PWLProject.v). *)
+Theorem C08_pwl_feasible_fixed : forall c n bias h,
+  PWLProject.pwl_valid c n -> length h = n -> PWLProject.feasible c bias h ->
+  qleq (PWLProject.pwl_project_col c (bias :: h)) (bias :: h).
+Proof. exact PWLProject.pwl_feasible_fixed. Qed.
+Print Assumptions C08_pwl_feasible_fixed.
